@@ -132,3 +132,151 @@ func TestMonitorRLock(t *testing.T) {
 		t.Fatalf("depth limit mis-judged: %v %v", v, ex)
 	}
 }
+
+// ---- liveness (hand-over scenarios): events carry explicit wall times in ms
+func evAt(evs []Ev, ms []int64) []Ev {
+	for i := range evs {
+		evs[i].Seq = int64(i + 1)
+		evs[i].T = ms[i] * 1e6
+	}
+	return evs
+}
+
+func TestMonitorLiveness(t *testing.T) {
+	sc := Scenario{ID: "t", Prim: "lock", Kind: "handover", Expried: 60}
+	// holder 0; short waiter 1 times out; long waiters 2,3 confirmed; release; 2 served at once, 3 after 2's release
+	base := func(serve2, serve3 int64, end int64) []Ev {
+		evs := []Ev{
+			{G: 0, Op: "acq-call", Kind: "holder", Tmo: 20000}, {G: 0, Op: "acq-ret", Kind: "holder", OK: true, Hold: 1},
+			{G: 1, Op: "acq-call", Kind: "short", Tmo: 200}, {G: 2, Op: "acq-call", Kind: "long", Tmo: 20000}, {G: 3, Op: "acq-call", Kind: "long", Tmo: 20000},
+			{G: 1, Op: "acq-ret", Kind: "short", OK: false, Res: 8, Err: "result"},
+			{G: 9, Op: "confirm", Dep: 2},
+			{G: 0, Op: "rel-call", Kind: "holder", Hold: -1}, {G: 0, Op: "rel-ret", Kind: "holder", OK: true}}
+		ts := []int64{0, 1, 2, 3, 4, 205, 210, 211, 212}
+		if serve2 >= 0 {
+			evs = append(evs, Ev{G: 2, Op: "acq-ret", Kind: "long", OK: true, Hold: 1}, Ev{G: 2, Op: "rel-call", Kind: "long", Hold: -1}, Ev{G: 2, Op: "rel-ret", Kind: "long", OK: true})
+			ts = append(ts, serve2, serve2+1, serve2+2)
+			if serve3 >= 0 {
+				evs = append(evs, Ev{G: 3, Op: "acq-ret", Kind: "long", OK: true, Hold: 1}, Ev{G: 3, Op: "rel-call", Kind: "long", Hold: -1}, Ev{G: 3, Op: "rel-ret", Kind: "long", OK: true})
+				ts = append(ts, serve3, serve3+1, serve3+2)
+			}
+		}
+		evs = append(evs, Ev{G: 9, Op: "end"})
+		ts = append(ts, end)
+		return evAt(evs, ts)
+	}
+	if v, ls := monitorLiveness(sc, base(213, 217, 230), 1, 2000); len(v) != 0 || ls.served != 2 || ls.notServed != 0 {
+		t.Fatalf("prompt hand-over flagged: %v %+v", v, ls)
+	}
+	// served, but only 1.9 s after the release: inside the bound
+	if v, _ := monitorLiveness(sc, base(2100, 2104, 2200), 1, 2000); len(v) != 0 {
+		t.Fatalf("hand-over inside the bound flagged: %v", v)
+	}
+	// nobody served: key free from 212 ms to the end at 2600 ms
+	if v, ls := monitorLiveness(sc, base(-1, -1, 2600), 1, 2000); len(v) != 1 || v[0].Sig != "monitor:lock:waiter-not-served" || !v[0].Liveness || ls.notServed != 2 {
+		t.Fatalf("stranded waiters not flagged: %v %+v", v, ls)
+	}
+	// the first waiter is served, the second is stranded after the first one's release
+	if v, _ := monitorLiveness(sc, base(213, -1, 2700), 1, 2000); len(v) != 1 {
+		t.Fatalf("second waiter stranded not flagged: %v", v)
+	}
+	// without a confirmation nothing is judged
+	noconf := base(-1, -1, 2600)
+	noconf[6].Op = "unconfirmed"
+	if v, _ := monitorLiveness(sc, noconf, 1, 2000); len(v) != 0 {
+		t.Fatalf("unconfirmed round judged: %v", v)
+	}
+	// the listing disagrees with the client-side picture (3 listed, 2 in flight): nothing is judged
+	mism := base(-1, -1, 2600)
+	mism[6].Dep = 3
+	if v, _ := monitorLiveness(sc, mism, 1, 2000); len(v) != 0 {
+		t.Fatalf("mismatching confirmation judged: %v", v)
+	}
+	// a newcomer holding the lock for 3 s is not a free key
+	busy := evAt([]Ev{
+		{G: 0, Op: "acq-call", Kind: "holder", Tmo: 20000}, {G: 0, Op: "acq-ret", Kind: "holder", OK: true, Hold: 1},
+		{G: 2, Op: "acq-call", Kind: "long", Tmo: 20000}, {G: 9, Op: "confirm", Dep: 1},
+		{G: 5, Op: "acq-call", Kind: "newcomer"}, {G: 0, Op: "rel-call", Kind: "holder", Hold: -1}, {G: 0, Op: "rel-ret", Kind: "holder", OK: true},
+		{G: 5, Op: "acq-ret", Kind: "newcomer", OK: true, Hold: 1}, {G: 5, Op: "rel-call", Kind: "newcomer", Hold: -1}, {G: 5, Op: "rel-ret", Kind: "newcomer", OK: true},
+		{G: 2, Op: "acq-ret", Kind: "long", OK: true, Hold: 1}, {G: 9, Op: "end"}},
+		[]int64{0, 1, 2, 10, 11, 12, 13, 14, 3000, 3001, 3002, 3003})
+	if v, _ := monitorLiveness(sc, busy, 1, 2000); len(v) != 0 {
+		t.Fatalf("busy key judged as free: %v", v)
+	}
+	// a waiter whose own timeout is about to elapse is not judged (timeout 2500 ms, called at 2 ms, free from 13 ms on)
+	imp := evAt([]Ev{
+		{G: 0, Op: "acq-call", Kind: "holder", Tmo: 20000}, {G: 0, Op: "acq-ret", Kind: "holder", OK: true, Hold: 1},
+		{G: 2, Op: "acq-call", Kind: "long", Tmo: 2500}, {G: 9, Op: "confirm", Dep: 1},
+		{G: 0, Op: "rel-call", Kind: "holder", Hold: -1}, {G: 0, Op: "rel-ret", Kind: "holder", OK: true}, {G: 9, Op: "end"}},
+		[]int64{0, 1, 2, 10, 12, 13, 2300})
+	if v, _ := monitorLiveness(sc, imp, 1, 2000); len(v) != 0 {
+		t.Fatalf("waiter close to its own timeout judged: %v", v)
+	}
+	// semaphore(2): one slot free for 2.5 s while a confirmed waiter waits
+	sem := Scenario{ID: "t", Prim: "semaphore", Kind: "handover", N: 2, Expried: 60}
+	semev := evAt([]Ev{
+		{G: 0, Op: "acq-call", Kind: "holder"}, {G: 0, Op: "acq-ret", Kind: "holder", OK: true, Hold: 1},
+		{G: 1, Op: "acq-call", Kind: "holder"}, {G: 1, Op: "acq-ret", Kind: "holder", OK: true, Hold: 1},
+		{G: 2, Op: "acq-call", Kind: "long", Tmo: 20000}, {G: 9, Op: "confirm", Dep: 1},
+		{G: 0, Op: "rel-call", Kind: "holder", Hold: -1}, {G: 0, Op: "rel-ret", Kind: "holder", OK: true}, {G: 9, Op: "end"}},
+		[]int64{0, 1, 2, 3, 4, 10, 11, 12, 2600})
+	if v, _ := monitorLiveness(sem, semev, 2, 2000); len(v) != 1 || v[0].Sig != "monitor:semaphore:waiter-not-served" {
+		t.Fatalf("free semaphore slot with waiter not flagged: %v", v)
+	}
+	if v, _ := monitorLiveness(sem, semev, 1, 2000); len(v) != 0 {
+		t.Fatalf("full semaphore judged available: %v", v)
+	}
+	// event vocabulary: Clear, two Waits, Set; one Wait never returns
+	evsc := Scenario{ID: "t", Prim: "event", Kind: "handover", DefaultSet: true, Expried: 60}
+	evh := func(ret3 bool) []Ev {
+		evs := []Ev{{G: 0, Op: "clear-call", Kind: "holder"}, {G: 0, Op: "clear-ret", Kind: "holder", OK: true},
+			{G: 2, Op: "wait-call", Kind: "long", Tmo: 20000}, {G: 3, Op: "wait-call", Kind: "long", Tmo: 20000}, {G: 9, Op: "confirm", Dep: 2},
+			{G: 0, Op: "set-call", Kind: "holder", Hold: -1}, {G: 0, Op: "set-ret", Kind: "holder", OK: true},
+			{G: 2, Op: "wait-ret", Kind: "long", OK: true}}
+		ts := []int64{0, 1, 2, 3, 10, 11, 12, 13}
+		if ret3 {
+			evs = append(evs, Ev{G: 3, Op: "wait-ret", Kind: "long", OK: true})
+			ts = append(ts, 14)
+		}
+		evs = append(evs, Ev{G: 9, Op: "end"})
+		ts = append(ts, 2700)
+		return evAt(evs, ts)
+	}
+	if v, _ := monitorLiveness(evsc, evh(true), 1, 2000); len(v) != 0 {
+		t.Fatalf("event: all waits released, flagged: %v", v)
+	}
+	if v, _ := monitorLiveness(evsc, evh(false), 1, 2000); len(v) != 1 || v[0].Sig != "monitor:event:waiter-not-served" {
+		t.Fatalf("event: a Wait not released by Set not flagged: %v", v)
+	}
+}
+
+func TestConfirmLiveness(t *testing.T) {
+	sc := Scenario{ID: "t", Prim: "lock", Kind: "handover"}
+	alarm := Violation{Liveness: true, Sig: "monitor:lock:waiter-not-served", What: "x"}
+	safety := Violation{Sig: "monitor:lock:admission", What: "y"}
+	res := ScenResult{Extra: map[string]interface{}{}}
+	// not reproduced: the alarm is dropped, the safety violation stays
+	out := confirmLiveness(sc, &res, []Violation{alarm, safety}, func(Scenario) (ScenResult, []Violation) { return ScenResult{}, nil })
+	if len(out) != 1 || out[0].Sig != safety.Sig || res.Extra["liveness_alarms_dropped_not_reproduced"] != 1 {
+		t.Fatalf("unreproduced alarm kept: %v %v", out, res.Extra)
+	}
+	// reproduced once: reported
+	n := 0
+	res = ScenResult{Extra: map[string]interface{}{}}
+	out = confirmLiveness(sc, &res, []Violation{alarm}, func(s2 Scenario) (ScenResult, []Violation) {
+		n++
+		if n == 2 {
+			return ScenResult{}, []Violation{alarm}
+		}
+		return ScenResult{}, nil
+	})
+	if len(out) != 1 || !out[0].Liveness || res.Extra["liveness_alarm_reproductions"] != 1 || n != 2 {
+		t.Fatalf("reproduced alarm lost: %v %v", out, res.Extra)
+	}
+	// no alarm: no re-run
+	n = 0
+	out = confirmLiveness(sc, &res, []Violation{safety}, func(Scenario) (ScenResult, []Violation) { n++; return ScenResult{}, nil })
+	if len(out) != 1 || n != 0 {
+		t.Fatalf("re-run without alarm")
+	}
+}
